@@ -207,8 +207,8 @@ def run_languagetool(plain, language, disable, enable,
             tex2txt.fatal('error running ' + repr(' '.join(lt_cmd))
                             + ' in directory ' + repr(cmdline.lt_directory))
 
-    out = out.decode(encoding='utf-8')
     try:
+        out = out.decode(encoding='utf-8')
         dic = json_decoder.decode(out)
     except:
         json_fatal('JSON root element')
